@@ -653,6 +653,7 @@ func (r *seqRun) step(i int, op Op) {
 			r.loose = true // the backend follows the final symbolic link: the effect lands on its target
 		}
 	}
+	strictBefore := r.strictAttrs
 	if r.loose {
 		// effects may land on other paths than the model predicts: realign afterwards, and stop
 		// comparing reply attributes with the backend (entries cached for those paths may be stale)
@@ -888,7 +889,13 @@ func (r *seqRun) step(i int, op Op) {
 			}
 		}
 		if res.Status == 0 {
+			// the post-op attributes of SETATTR are taken after the request's own invalidation, so they
+			// describe the object the handle names (for a symbolic link: the link itself, whatever the
+			// effect on its target) even when the operation is otherwise judged loosely
+			saved := r.strictAttrs
+			r.strictAttrs = strictBefore
 			r.checkAttr(op.Op, hr.path, res.Wcc.After)
+			r.strictAttrs = saved
 		}
 	case "CREATE":
 		res, err := cl.Create(hr.fh, op.Name, op.How, op.SA.sattr(), verfBytes(op.Verf))
